@@ -605,8 +605,9 @@ Definition obsu_eqb (a b : list (Z * bytes) * list call * option outcome) : bool
    0 no; 16 * class otherwise (class 3 = outside the two known classes) *)
 Definition m1m2_class (c : conn_case) : Z :=
   let m1 := run1 (case_oracles c) (cc_cfg c) (case_env c) (frames_of (cf_max_len (cc_cfg c)) (cc_segs c)) in
-  if obsu_eqb (obs_untimed m1) (obs_untimed (case_trace2 c)) then 0
-  else 16 * (if cancel_class c =? 0 then 3 else cancel_class c).
+  (* since the repair of receive_packet the two models agree on EVERY schedule (C08_refines); a
+     difference here would contradict that theorem *)
+  if obsu_eqb (obs_untimed m1) (obs_untimed (case_trace2 c)) then 0 else 16 * 3.
 
 (* C08: exact correspondence with M2 on every schedule; the monitor on the observation; and
    the schedules on which segmentation / timing changes the behaviour, by class *)
@@ -617,15 +618,16 @@ Definition sends_wellformed (c : conn_case) : bool :=
   forallb (fun e => match e with TSend p _ => negb (String.eqb (p_name p) "?") | _ => true end)
           (obs_sends (intent_of c =? 0) false (cc_sent c)).
 
-(* the property itself on the implementation's observation: outside the known classes the handler
-   does exactly what it does when every frame arrives whole (M1 on the reader's output) - packets
-   sent (Keep Alive left out), services consulted, outcome *)
+(* the property itself on the implementation's observation: on EVERY schedule the handler does
+   exactly what it does when every frame arrives whole (M1 on the reader's output) - packets sent
+   (Keep Alive left out), services consulted, outcome.  (Before the repair of receive_packet the
+   classes K1 / K4 had to be exempted: [harmful_class] above is what they were.) *)
 Definition obs_untimed_impl (c : conn_case) : list (Z * bytes) * list call * option outcome :=
   (map (fun x => (snd (fst x), snd x)) (filter (fun x => negb (snd (fst x) =? 4) || negb (Z.of_nat (length (snd x)) =? 8)) (cc_sent c)),
    map snd (cc_calls c), Some (cc_outcome c)).
 Definition seg_independent (c : conn_case) : bool :=
   let m1 := run1 (case_oracles c) (cc_cfg c) (case_env c) (frames_of (cf_max_len (cc_cfg c)) (cc_segs c)) in
-  negb (harmful_class c =? 0) || Z.testbit (cc_flags c) 3 || obsu_eqb (obs_untimed m1) (obs_untimed_impl c).
+  obsu_eqb (obs_untimed m1) (obs_untimed_impl c).
 
 (* the write side against Conn/SendQueue.v: what send_packet OFFERS to the stream at every
    poll_write is exactly the queue of the model (the rest of an interrupted frame followed by the
@@ -673,3 +675,8 @@ Definition check_c08c (c : conn_case) : Z :=
 
 Definition check_c04c (c : conn_case) : Z :=
   let k := corr_conn2 c in if k =? 4 then 4 else k + moni (obs_c04 c).
+
+(* exact (timed) correspondence with the FRAME-level model on what the byte-level reader makes of the
+   delivered segments: what the handler must do if its behaviour does not depend on segmentation *)
+Definition corr_m1seg (c : conn_case) : Z :=
+  corr_gen (run1 (case_oracles c) (cc_cfg c) (case_env c) (frames_of (cf_max_len (cc_cfg c)) (cc_segs c))) c.
